@@ -70,6 +70,10 @@ class Closure:
         self.expr, self.frame = expr, frame
 
 
+class Visitor:
+    """an external callable handed to Visit(): every invocation is recorded as a ('visit', argument) event"""
+
+
 UNKNOWN = None
 
 
@@ -494,11 +498,16 @@ class Interp:
             if isinstance(tgt, Loc) and self.kind_of_path(tgt.path) == 'storage':
                 self.destroy(tgt.path, fr, e)
             return UNKNOWN
+        if (q.startswith('std::swap') or name == 'swap') and len(e['args']) == 2:
+            return self.swap(e['args'][0], e['args'][1], fr, e)
         args = [self.ev(a, fr) for a in e['args']]
         if hook is not None:
             r = hook(self, fr, e, obj, args)
             if r is not NotImplemented:
                 return r
+        if e.get('ck') == 'op' and name == 'operator()' and args and isinstance(self.read(args[0], fr, e), Visitor):
+            self.w.events.append(('visit', args[1] if len(args) > 1 else None, self.site(fr, e)))
+            return UNKNOWN
         # closure invocation: op(value)
         if e.get('ck') == 'op' and name == 'operator()' and args and isinstance(self.read(args[0], fr, e), Closure):
             clo = self.read(args[0], fr, e)
@@ -543,6 +552,26 @@ class Interp:
         if isinstance(obj, Loc) and self.kind_of_path(obj.path) == 'storage':
             self.use_storage(obj.path, fr, e, 'member call %s' % name)
         self.w.events.append(('extcall', name, self.site(fr, e), tuple(self.read(a, fr, e) if not isinstance(a, Loc) else a for a in args)))
+        return UNKNOWN
+
+    def swap(self, ea, eb, fr, e):
+        def access(x):
+            x0 = ir.strip_all_casts(x)
+            if x0.get('k') == 'ref' and x0.get('dk') in ('local', 'param'):
+                f = fr
+                while f is not None and x0['id'] not in f.env:
+                    f = f.closure
+                if f is not None and not isinstance(f.env[x0['id']], Loc):
+                    return (lambda: f.env[x0['id']]), (lambda v: f.env.__setitem__(x0['id'], v))
+            v = self.ev(x, fr)
+            if isinstance(v, Loc):
+                return (lambda: self.w.cells.get(v.path)), (lambda nv: self.w.cells.__setitem__(v.path, nv))
+            return (lambda: UNKNOWN), (lambda nv: None)
+        ga, sa = access(ea)
+        gb, sb = access(eb)
+        a, b = ga(), gb()
+        sa(b)
+        sb(a)
         return UNKNOWN
 
     def ctor_expr(self, e, fr, target):
